@@ -6,6 +6,7 @@ import RapidModel.Generated.CallOrders
 import RapidModel.Generated.Consts
 import RapidProofs.Signals
 import RapidProofs.StateMachine
+import RapidProofs.TranslatedRepeatEq
 
 namespace Rapid.C08
 
@@ -93,5 +94,44 @@ theorem tries_source : Rapid.Generated.c_validActionTries = validActionTries ∧
 theorem repeat_order_source :
     Rapid.Generated.order_Repeat = ["call t.Helper", "assign", "call make", "for", "if", "call sort.Strings", "assign", "if",
       "call newRepeat", "assign", "call sm.check", "call t.failOnError", "for"] := by decide
+
+/-- `T.Repeat`, `stateMachine.executeAction` and `runAction` re-read from /repo statement by statement: the model's `smRepeat` /
+    `execAction` were written against exactly this text — the invariant and `failOnError` once before the loop; the loop
+    `for repeat.more(t.s) { ok := executeAction; if ok { check; failOnError } else { repeat.reject() } }`; an attempt is an
+    `action` group around the draw of the key and the call; "skipped" is invalid data with no draw completed (`t.draws`), after
+    `failOnError`; `validActionTries` attempts, then `stopTest(noValidActionsMsg)` -/
+theorem repeat_body_source : Rapid.Generated.body_T_Repeat =
+    ["{", "t.Helper()", "check := func(*T) {}", "actionKeys := make([]string, 0, len(actions))",
+     "for key, action := range actions {", "if key != \"\" {", "actionKeys = append(actionKeys, key)", "} else {",
+     "check = action", "}", "}", "if len(actionKeys) == 0 {", "return", "}", "sort.Strings(actionKeys)",
+     "steps := flags.steps", "if testing.Short() {", "steps /= 2", "}",
+     "repeat := newRepeat(-1, -1, float64(steps), \"Repeat\")", "sm := stateMachine{", "check:\t\tcheck,",
+     "actionKeys:\tSampledFrom(actionKeys),", "actions:\tactions,", "}", "sm.check(t)", "t.failOnError()",
+     "for repeat.more(t.s) {", "ok := sm.executeAction(t)", "if ok {", "sm.check(t)", "t.failOnError()", "} else {",
+     "repeat.reject()", "}", "}", "}"] := by decide
+
+theorem executeAction_body_source : Rapid.Generated.body_stateMachine_executeAction =
+    ["{", "t.Helper()", "for n := 0; n < validActionTries; n++ {", "i := t.s.beginGroup(actionLabel, false)",
+     "action := sm.actions[sm.actionKeys.Draw(t, \"action\")]", "invalid, skipped := runAction(t, action)",
+     "t.s.endGroup(i, false)", "if skipped {", "continue", "} else {", "return !invalid", "}", "}",
+     "panic(stopTest(noValidActionsMsg))", "}"] := by decide
+
+theorem runAction_body_source : Rapid.Generated.body_runAction =
+    ["{", "defer func(draws int) {", "if r := recover(); r != nil {", "if _, ok := r.(invalidData); ok {",
+     "t.failOnError()", "invalid = true", "skipped = t.draws == draws", "} else {", "panic(r)", "}", "}",
+     "}(t.draws)", "action(t)", "t.failOnError()", "return false, false", "}"] := by decide
+
+/-- the loop of `T.Repeat` around the *translated* `repeat.more` / `repeat.reject` (utils.go, translated on every run) is the
+    loop of the model's `smRepeat` — `repeatLoop ⟨0, maxInt, steps-threshold, "Repeat"⟩` —: for every step program (an attempt to
+    run an action, then the invariant), source of words and `*T` state the two end with the same result, rest of the source,
+    recorded groups, events — an action that could not run is rejected (`rRej`: not counted, its group discarded), one that ran
+    is counted — or the model ran out of fuel (the deadline) -/
+theorem source_repeat_steps (fe : Go.FEval) (ft : FT) (HB : FloatFactsBits fe ft) (thr pc : UInt64)
+    (hcp : Go.CoinOK fe (.ofBits pc) thr) (step : Val → Prog) (hshape : StepShape step) (cf fuel : Nat) (hfuel : fuel < 2 ^ 59)
+    (src : Src) (ts : TS) :
+    ((repeatLoop ⟨0, maxInt, thr, "Repeat"⟩ step (fun a => .ret a) fuel {} .nil).run src ts).res = .error .fuel ∨
+    (Go.StM.run (Go.repeatWhile fe step cf fuel (Go.RS.fresh ⟨0, maxInt, thr, "Repeat"⟩ pc) .nil) (Go.StState.fresh src ts)).core =
+      Go.outCore ((repeatLoop ⟨0, maxInt, thr, "Repeat"⟩ step (fun a => .ret a) fuel {} .nil).run src ts) :=
+  Go.tr_repeat fe ft HB ⟨0, maxInt, thr, "Repeat"⟩ pc hcp (by show 0 < 2 ^ 62; decide) (by show maxInt < 2 ^ 63; decide) step hshape cf fuel hfuel .nil src ts
 
 end Rapid.C08
